@@ -136,9 +136,9 @@ func (g *Gen) computeSummaries() {
 					g.noteStore(c, s, in.Addr)
 				case *ssa.MapUpdate:
 					m := in.Map.Type().Underlying().(*types.Map)
-					ks, vs := g.sortOf(c, m.Key()), g.sortOf(c, m.Elem())
-					s.vars["MD:"+bare(ks)] = true
-					s.vars["MV:"+bare(ks)+":"+bare(vs)] = true
+					dn, vn := g.mapVarNames(m)
+					s.vars[dn] = true
+					s.vars[vn] = true
 					s.vars["ML"] = true
 				case *ssa.Send:
 					s.blocks = true
@@ -354,9 +354,9 @@ func (g *Gen) noteBuiltin(c *FnCtx, s *summary, b *ssa.Builtin, cc *ssa.CallComm
 		}
 	case "delete":
 		m := cc.Args[0].Type().Underlying().(*types.Map)
-		ks, vs := g.sortOf(c, m.Key()), g.sortOf(c, m.Elem())
-		s.vars["MD:"+bare(ks)] = true
-		s.vars["MV:"+bare(ks)+":"+bare(vs)] = true
+		dn, vn := g.mapVarNames(m)
+		s.vars[dn] = true
+		s.vars[vn] = true
 		s.vars["ML"] = true
 	case "close":
 		s.vars["chclosed"] = true
@@ -552,7 +552,7 @@ func (t *fnTrans) nilIfaceCheck(v ssa.Value, pos token.Pos) {
 // keeping ghost lock state.
 func (t *fnTrans) havocVars(all bool, vars map[string]bool) {
 	keepGhost := func(hv string) bool {
-		return hv == "held" || hv == "rheld" || hv == "alloc" || strings.HasPrefix(hv, "ghost:") || strings.HasPrefix(hv, "RV:")
+		return hv == "held" || hv == "rheld" || hv == "alloc" || strings.HasPrefix(hv, "ghost:") || strings.HasPrefix(hv, "RV:") || t.g.ann.immutableHV[hv]
 	}
 	reach := t.cur.reach
 	defers := t.cur.defers
@@ -878,6 +878,7 @@ func (t *fnTrans) mLock(in ssa.Instruction, cc *ssa.CallCommon, res ssa.Value) b
 	nm := t.lockName(cc.Args[0])
 	t.oblige("lock.relock", "lock:"+nm, in.Pos(), and(not(t.heldGet(k)), not(t.rheldGet(k))), "Lock of a mutex this goroutine already holds (self-deadlock)")
 	t.lockOrder(in, k, field, nm)
+	t.lockKeys = append(t.lockKeys, lockKeyRef{k, field})
 	t.h.set(t.cur, "held", store(t.h.get(t.cur, "held"), k, "true"))
 	t.acquireEffects(cc.Args[0], field)
 	return true
@@ -1107,7 +1108,7 @@ func (t *fnTrans) mHasPrefix(in ssa.Instruction, cc *ssa.CallCommon, res ssa.Val
 	s, p := t.val(cc.Args[0]), t.val(cc.Args[1])
 	t.h.reg("E:Int", "(Array Int (Array Int Int))")
 	e := t.h.get(t.cur, "E:Int")
-	fn := t.c.declareFun("isprefix", []string{"(Array Int Int)", "Int", "Int", "(Array Int Int)", "Int", "Int"}, "Bool")
+	fn := "isprefix"
 	t.setVal(res, fmt.Sprintf("(%s %s (sl_off %s) (sl_len %s) %s (sl_off %s) (sl_len %s))", fn, sel(e, "(sl_arr "+p+")"), p, p, sel(e, "(sl_arr "+s+")"), s, s))
 	return true
 }
@@ -1116,7 +1117,7 @@ func (t *fnTrans) mBytesEqual(in ssa.Instruction, cc *ssa.CallCommon, res ssa.Va
 	a, b := t.val(cc.Args[0]), t.val(cc.Args[1])
 	t.h.reg("E:Int", "(Array Int (Array Int Int))")
 	e := t.h.get(t.cur, "E:Int")
-	fn := t.c.declareFun("byteseq", []string{"(Array Int Int)", "Int", "Int", "(Array Int Int)", "Int", "Int"}, "Bool")
+	fn := "byteseq"
 	t.setVal(res, fmt.Sprintf("(%s %s (sl_off %s) (sl_len %s) %s (sl_off %s) (sl_len %s))", fn, sel(e, "(sl_arr "+a+")"), a, a, sel(e, "(sl_arr "+b+")"), b, b))
 	return true
 }
@@ -1182,6 +1183,7 @@ func (t *fnTrans) selectInstr(in *ssa.Select) {
 	if site != "" {
 		t.siteBefore(site, in, nil)
 	}
+	t.lastSel = idx
 	recvOk := t.c.declare(t.c.fresh(in.Name()+".ok"), "Bool")
 	out := []string{idx, recvOk}
 	for k, st := range in.States {
